@@ -18,18 +18,21 @@ RulesOf(jp) == [i \in DOMAIN jp |-> RuleOf(jp[i])]
 PolOf(j) == [p \in DOMAIN j.policies |-> RulesOf(j.policies[p])]
 GrpOf(j) == [n \in DOMAIN j.groups |-> ToSet(j.groups[n])]
 SvcOf(j) == [n \in DOMAIN j.services |-> j.services[n]]
+\* the id of a group's expression is optional in the JSON ("id" is what Netspoc writes)
+XidOf(j) == [n \in DOMAIN j.groups |-> IF "xids" \in DOMAIN j /\ n \in DOMAIN j.xids THEN j.xids[n] ELSE "id"]
 
 TInit == /\ l = 1 /\ i0 = 1 /\ errl = 0 /\ nchg = 0 /\ foreign = "" /\ Trace[1].ev = "Init"
          /\ pol = PolOf(Trace[1].dev) /\ grp = GrpOf(Trace[1].dev) /\ svc = SvcOf(Trace[1].dev) /\ err = ""
+         /\ xid = XidOf(Trace[1].dev)
 IsChange(e) == e.ev \notin {"Init", "Resume", "Done"}
 Dispatch(e) ==
   CASE e.ev = "PutService"    -> PutService(e.id, e.value)
     [] e.ev = "PatchService"  -> PatchService(e.id, e.value)
     [] e.ev = "DeleteService" -> DeleteService(e.id)
-    [] e.ev = "PutGroup"      -> PutGroup(e.id, ToSet(e.members))
-    [] e.ev = "GroupAdd"      -> GroupAdd(e.id, ToSet(e.members))
-    [] e.ev = "GroupRemove"   -> GroupRemove(e.id, ToSet(e.members))
-    [] e.ev = "PatchExpr"     -> PatchExpr(e.id, ToSet(e.members))
+    [] e.ev = "PutGroup"      -> PutGroup(e.id, ToSet(e.members), e.x)
+    [] e.ev = "GroupAdd"      -> GroupAdd(e.id, ToSet(e.members), e.x)
+    [] e.ev = "GroupRemove"   -> GroupRemove(e.id, ToSet(e.members), e.x)
+    [] e.ev = "PatchExpr"     -> PatchExpr(e.id, ToSet(e.members), e.x)
     [] e.ev = "DeleteGroup"   -> DeleteGroup(e.id)
     [] e.ev = "PutPolicy"     -> PutPolicy(e.id, RulesOf(e.rules))
     [] e.ev = "DeletePolicy"  -> DeletePolicy(e.id)
@@ -43,6 +46,7 @@ TNext ==
   /\ l' = l + 1
   /\ IF Ev.ev = "Init"
      THEN /\ pol' = PolOf(Ev.dev) /\ grp' = GrpOf(Ev.dev) /\ svc' = SvcOf(Ev.dev) /\ err' = ""
+          /\ xid' = XidOf(Ev.dev)
           /\ i0' = l + 1 /\ errl' = 0 /\ nchg' = 0 /\ foreign' = ""
      ELSE /\ Dispatch(Ev)
           /\ i0' = i0
@@ -79,7 +83,7 @@ TwinIn(rs) == \E i, j \in DOMAIN rs : i # j /\ rs[i].seq = rs[j].seq /\ rs[i].ac
 KF_TwinRules == (\E p \in DOMAIN PolOf(D0) : TwinIn(PolOf(D0)[p])) \/ (\E p \in DOMAIN TPol : TwinIn(TPol[p]))
 KFKey == IF KF_TwinRules THEN "NsxTwinRules" ELSE ""
 
-Post(j) == pol = PolOf(j) /\ grp = GrpOf(j) /\ svc = SvcOf(j)
+Post(j) == pol = PolOf(j) /\ grp = GrpOf(j) /\ svc = SvcOf(j) /\ xid = XidOf(j)
 Chk(ok, tag, detail, kf) == ok \/ PrintT(<<"VERR", LastEv.t, l, tag, detail, kf>>)
 Mon ==
   /\ Chk(~(err # "" /\ errl = l), "C08", err, "")
